@@ -1,4 +1,6 @@
 SPECIFICATION TraceSpec
-INVARIANT NotAccepted
 INVARIANT SizeOK
+\* NotAccepted is listed LAST: TLC reports the first violated invariant of a state, and a property invariant violated in the final state of a
+\* recorded execution must not be masked by the acceptance marker
+INVARIANT NotAccepted
 CHECK_DEADLOCK FALSE
